@@ -19,17 +19,12 @@ pub fn run<S: InterpreterTrait>(interpreter: &mut S) -> Result<(), RuntimeError>
 }
 
 fn do_mid(s: &str, start: usize, opt_length: Option<usize>) -> Result<String, RuntimeError> {
+    // positions are counted in characters
     let start_index: usize = start - 1;
+    let rest = s.chars().skip(start_index);
     match opt_length {
-        Some(length) => {
-            let end: usize = if start_index + length > s.len() {
-                s.len()
-            } else {
-                start_index + length
-            };
-            Ok(s.get(start_index..end).unwrap_or_default().to_string())
-        }
-        None => Ok(s.get(start_index..).unwrap_or_default().to_string()),
+        Some(length) => Ok(rest.take(length).collect()),
+        None => Ok(rest.collect()),
     }
 }
 
